@@ -274,7 +274,18 @@ def broadcast_shapes(sa, sb):
                 raise Unsupported(f"operands could not be broadcast together: {sa} {sb}")
             out.append(a)
         else:
-            out.append(a)       # symbolic sizes: assumed equal (numpy would raise otherwise)
+            # symbolic sizes: numpy raises unless equal (or one is 1) -> safety obligation in code mode
+            if not _same_dim(a, b):
+                from . import values as _V
+                p = _V.PATH[0]
+                if p is not None and _V.SAFETY[0]:
+                    p.oblige("safety.broadcast", sor(compare("==", a, b), compare("==", a, 1), compare("==", b, 1)),
+                             {"kind": "safety"})
+                if p is not None:
+                    # past this point the sizes agree (otherwise numpy raised)
+                    out.append(ite(compare("==", a, 1), b, a))
+                    continue
+            out.append(a)
     return tuple(out), sa, sb
 
 
